@@ -308,9 +308,10 @@ def run(ctx):
 	ctx.assume("sys.argv, sockets (vnet), logging initialisation and the clock generator's time source are replaced from outside")
 	r = ctx.rng("c12")
 	for i in range(ctx.scale(800, 30000)):
-		run_config(ctx, r, i)
+		run_config(ctx, ctx.case_rng("config", i), i)
 		if ctx.too_many() or ctx.time_left() < 0:
 			break
+	ctx.current_case = None
 	sim.restore_time()
 	ctx.require("configurations", 50)
 	ctx.require("invariant_checks", 2000)
@@ -324,6 +325,8 @@ def run(ctx):
 
 
 def replay(ctx, data):
-	ctx.rule = "replay: configurations are regenerated from the seed; rerunning the check with the recorded seed"
+	if common.replay_case(ctx, data, {"config": run_config}):
+		return
+	ctx.rule = "replay: no case coordinates in the witness; rerunning the check with the recorded seed"
 	ctx.seed = data.get("seed", 0)
 	run(ctx)
